@@ -19,11 +19,12 @@ Local Open Scope Z_scope.
 (** * Resources *)
 
 (* [REmb r u b]: the Ret r whose handler is the call closure u ([b]: ret_some_to), as one object *)
-Inductive res := RClo (u : N) | RRet (r : N) | RNot (a : N) | RVal (a : N) | REmb (r u : N) (b : bool) | RBad.
+(* [RFr u]: the uid u has been handed out (census: u below the next-uid counter; created by [EClo u]) *)
+Inductive res := RClo (u : N) | RRet (r : N) | RNot (a : N) | RVal (a : N) | REmb (r u : N) (b : bool) | RFr (u : N) | RBad.
 
 Definition res_eqb (x y : res) : bool :=
   match x, y with
-  | RClo a, RClo b | RRet a, RRet b | RNot a, RNot b | RVal a, RVal b => N.eqb a b
+  | RClo a, RClo b | RRet a, RRet b | RNot a, RNot b | RVal a, RVal b | RFr a, RFr b => N.eqb a b
   | REmb r u b, REmb r' u' b' => N.eqb r r' && N.eqb u u' && Bool.eqb b b'
   | RBad, RBad => true
   | _, _ => false
@@ -203,9 +204,13 @@ Definition cactor (x : res) (a : N) (y : actor) : Z := cstate x a (a_state y) + 
 Fixpoint cacts (x : res) (l : list (N * actor)) : Z :=
   match l with [] => 0 | p :: r => cactor x (fst p) (snd p) + cacts x r end.
 
+(* uids below the next-uid counter *)
+Definition cnu (x : res) (n : N) : Z :=
+  match x with RFr u => if N.ltb u n then 1 else 0 | _ => 0 end.
+
 Definition cst (x : res) (s : st) : Z :=
   cq x (mainq s) + cq x (lazyq s) + cq x (idleq s) + ctim x (timers s) + cacts x (actors s) +
-  cenv x (env s) + cfrs x (frames s).
+  cenv x (env s) + cfrs x (frames s) + cnu x (nuid s).
 
 (* the message a Ret is invoked with must fit its kind *)
 Definition cmsg (x : res) (r : ret) (m : option msg) : Z :=
@@ -231,7 +236,7 @@ Fixpoint cmops (x : res) (l : list mop) : Z :=
 (* token events *)
 Definition cre1 (x : res) (e : ev) : Z :=
   match e with
-  | EClo u _ => ind x (RClo u)
+  | EClo u _ => ind x (RClo u) + ind x (RFr u)
   | EReady a => ind x (RVal a)
   | ERetNew r => ind x (RRet r)
   | ERetTo r u b => ind x (REmb r u b)
@@ -279,11 +284,13 @@ Lemma cactor_nn x a y : 0 <= cactor x a y.
 Proof. unfold cactor. pose proof (cstate_nn x a (a_state y)). pose proof (cnotopt_nn x (a_notify y)). lia. Qed.
 Lemma cacts_nn x l : 0 <= cacts x l.
 Proof. induction l as [|p l IH]; simpl; [lia|]. pose proof (cactor_nn x (fst p) (snd p)). lia. Qed.
+Lemma cnu_nn x n : 0 <= cnu x n.
+Proof. destruct x; simpl; try lia. destruct (N.ltb u n); lia. Qed.
 Lemma cst_nn x s : 0 <= cst x s.
 Proof.
   unfold cst. pose proof (cq_nn x (mainq s)). pose proof (cq_nn x (lazyq s)). pose proof (cq_nn x (idleq s)).
   pose proof (ctim_nn x (timers s)). pose proof (cacts_nn x (actors s)). pose proof (cenv_nn x (env s)).
-  pose proof (cfrs_nn x (frames s)). lia.
+  pose proof (cfrs_nn x (frames s)). pose proof (cnu_nn x (nuid s)). lia.
 Qed.
 Lemma cmsg_nn x r m : 0 <= cmsg x r m.
 Proof. destruct m as [[v|c]|]; simpl; try lia; apply badif_nn. Qed.
@@ -398,8 +405,8 @@ Proof. unfold W, cst. stsimp. simpl creT. simpl conT. lia. Qed.
 
 Lemma W_same x s s' :
   mainq s' = mainq s -> lazyq s' = lazyq s -> idleq s' = idleq s -> timers s' = timers s -> actors s' = actors s ->
-  env s' = env s -> frames s' = frames s -> tr s' = tr s -> W x s' = W x s.
-Proof. intros A B C D E F G H. unfold W, cst. rewrite A, B, C, D, E, F, G, H. reflexivity. Qed.
+  env s' = env s -> frames s' = frames s -> tr s' = tr s -> nuid s' = nuid s -> W x s' = W x s.
+Proof. intros A B C D E F G H I. unfold W, cst. rewrite A, B, C, D, E, F, G, H, I. reflexivity. Qed.
 
 Lemma W_set_alive x s v : W x (set_alive s v) = W x s. Proof. reflexivity. Qed.
 Lemma W_set_now x s v : W x (set_now s v) = W x s. Proof. reflexivity. Qed.
@@ -408,12 +415,24 @@ Lemma W_set_tnext x s v : W x (set_tnext s v) = W x s. Proof. reflexivity. Qed.
 Lemma W_set_tvars x s v : W x (set_tvars s v) = W x s. Proof. reflexivity. Qed.
 Lemma W_set_recreate x s v : W x (set_recreate s v) = W x s. Proof. reflexivity. Qed.
 Lemma W_set_fwds x s v : W x (set_fwds s v) = W x s. Proof. reflexivity. Qed.
-Lemma W_set_nuid x s v : W x (set_nuid s v) = W x s. Proof. reflexivity. Qed.
 Lemma W_set_logseq x s v : W x (set_logseq s v) = W x s. Proof. reflexivity. Qed.
 Lemma W_set_logfilter x s v : W x (set_logfilter s v) = W x s. Proof. reflexivity. Qed.
 Lemma W_set_haslogger x s v : W x (set_haslogger s v) = W x s. Proof. reflexivity. Qed.
 Lemma W_set_shut x s v : W x (set_shut s v) = W x s. Proof. reflexivity. Qed.
 
+Lemma W_set_nuid x s v : W x (set_nuid s v) = W x s - cnu x (nuid s) + cnu x v.
+Proof. unfold W, cst. stsimp. lia. Qed.
+Lemma cnu_succ x n : cnu x (n + 1) = cnu x n + ind x (RFr n).
+Proof.
+  destruct x; simpl; try (rewrite ind_neq by discriminate; lia).
+  destruct (N.eq_dec u n) as [->|NE].
+  - rewrite ind_refl. replace (N.ltb n n) with false by (symmetry; apply N.ltb_ge; lia).
+    replace (N.ltb n (n + 1)) with true by (symmetry; apply N.ltb_lt; lia). lia.
+  - rewrite ind_neq by congruence.
+    destruct (N.ltb u n) eqn:L.
+    + apply N.ltb_lt in L. replace (N.ltb u (n + 1)) with true by (symmetry; apply N.ltb_lt; lia). lia.
+    + apply N.ltb_ge in L. replace (N.ltb u (n + 1)) with false by (symmetry; apply N.ltb_ge; lia). lia.
+Qed.
 Lemma W_set_mainq x s v : W x (set_mainq s v) = W x s - cq x (mainq s) + cq x v.
 Proof. unfold W, cst. stsimp. lia. Qed.
 Lemma W_set_lazyq x s v : W x (set_lazyq s v) = W x s - cq x (lazyq s) + cq x v.
@@ -528,7 +547,16 @@ Proof. unfold bad. intros Q; inversion Q; subst. rewrite W_emit. simpl. lia. Qed
 Lemma inst_W x c mk s ci s' : inst c mk s = (ci, s') -> realk (mk (clo_body c)) = true -> cci x ci + W x s' = W x s.
 Proof.
   unfold inst. destruct (take_caps (clo_caps c) s) as [caps s1] eqn:T. intros Q R; inversion Q; subst.
-  rewrite cci_eq, R, W_emit, W_set_nuid. pose proof (take_caps_W x _ _ _ _ T). simpl. lia.
+  rewrite cci_eq, R, W_emit, W_set_nuid. pose proof (take_caps_W x _ _ _ _ T).
+  assert (NU : nuid s1 = nuid s).
+  { clear - T. revert s caps s1 T. induction (clo_caps c) as [|h r IH]; simpl; intros s caps s1 T.
+    - inversion T; reflexivity.
+    - assert (TK : forall o s2, take s h = (o, s2) -> nuid s2 = nuid s).
+      { intros o s2. unfold take. repeat dest_match; intros Q; inversion Q; reflexivity. }
+      destruct (take s h) as [[v|] s2] eqn:TT.
+      + destruct (take_caps r s2) as [l2 s3] eqn:T2. inversion T; subst. rewrite (IH _ _ _ T2). eapply TK; eauto.
+      + rewrite (IH _ _ _ T). eapply TK; eauto. }
+  stsimp. rewrite NU, cnu_succ. simpl. lia.
 Qed.
 
 Lemma inst_call_W x c mk s ci s' : inst_call c mk s = (ci, s') -> realk (mk (clo_body c)) = true -> cci x ci + W x s' = W x s.
@@ -539,13 +567,13 @@ Qed.
 
 Lemma inst_nocaps_W x c mk s ci s' : inst_nocaps c mk s = (ci, s') -> realk (mk (clo_body c)) = true -> cci x ci + W x s' = W x s.
 Proof.
-  unfold inst_nocaps. intros Q R; inversion Q; subst. rewrite cci_eq, R, W_emit, W_set_nuid. simpl. lia.
+  unfold inst_nocaps. intros Q R; inversion Q; subst. rewrite cci_eq, R, W_emit, W_set_nuid, cnu_succ. simpl. lia.
 Qed.
 
 Lemma inst_env_W x c mk s ci s' : inst_env c mk s = (ci, s') -> realk (mk (clo_body c)) = true -> cci x ci + W x s' = W x s.
 Proof.
   unfold inst_env. destruct (take_env_caps (clo_caps c) s) as [caps s1] eqn:T. intros Q R; inversion Q; subst.
-  rewrite cci_eq, R, W_emit, W_set_nuid. pose proof (take_env_caps_W x _ _ _ _ T). simpl. lia.
+  rewrite cci_eq, R, W_emit, W_set_nuid, cnu_succ. pose proof (take_env_caps_W x _ _ _ _ T). simpl. lia.
 Qed.
 
 Lemma inst_kind c mk s ci s' : inst c mk s = (ci, s') -> ci_kind ci = mk (clo_body c).
@@ -717,4 +745,89 @@ Proof.
   unfold fire. intros Q; inversion Q; subst. rewrite cq_map_ti, ctim_sort, W_set_timers.
   pose proof (ctim_filter x (ti_due t) (timers s)).
   destruct (ambiguous _); [rewrite W_emit; stsimp; simpl|]; lia.
+Qed.
+
+(* ------------------------------------------------------------------ *)
+(** * The freshness marker occurs in no value *)
+
+Lemma badif_fr u b : badif (RFr u) b = 0.
+Proof. unfold badif. destruct b; [reflexivity | apply ind_neq; discriminate]. Qed.
+
+Section FrZero.
+Transparent cv cret crk cci.
+Fixpoint cv_fr (u : N) (v : hval) {struct v} : cv (RFr u) v = 0
+with cret_fr (u : N) (r : ret) {struct r} : cret (RFr u) r = 0
+with crk_fr (u : N) (rid : N) (k : rkind) {struct k} : crk (RFr u) rid k = 0
+with cci_fr (u : N) (c : citem) {struct c} : cci (RFr u) c = 0.
+Proof.
+  - destruct v; simpl; try reflexivity. rewrite badif_fr, (cret_fr u r). reflexivity.
+  - destruct r as [rid k]. simpl. apply crk_fr.
+  - destruct k as [caps b|a ci|a ci|a inner|p key inner].
+    + simpl. rewrite ind_neq by discriminate.
+      assert ((fix go (l : list (N * hval)) : Z := match l with [] => 0 | p :: l' => match p with (_, v) => cv (RFr u) v + go l' end end) caps = 0).
+      { induction caps as [|[h v] l IH]; [reflexivity|]. rewrite (cv_fr u v), IH. reflexivity. }
+      lia.
+    + simpl. rewrite !ind_neq by discriminate. rewrite badif_fr, (cci_fr u ci). reflexivity.
+    + simpl. rewrite !ind_neq by discriminate. rewrite badif_fr, (cci_fr u ci). reflexivity.
+    + simpl. rewrite ind_neq by discriminate. destruct inner as [[p ci]|]; [|reflexivity].
+      rewrite badif_fr, (cci_fr u ci). reflexivity.
+    + simpl. apply cret_fr.
+  - destruct c as [u0 i kd caps q]. simpl. destruct (realk kd); [|reflexivity].
+    rewrite ind_neq by discriminate.
+    assert ((fix go (l : list (N * hval)) : Z := match l with [] => 0 | p :: l' => match p with (_, v) => cv (RFr u) v + go l' end end) caps = 0).
+    { induction caps as [|[h v] l IH]; [reflexivity|]. rewrite (cv_fr u v), IH. reflexivity. }
+    lia.
+Qed.
+End FrZero.
+
+Lemma cenv_fr u l : cenv (RFr u) l = 0.
+Proof. induction l as [|p l IH]; simpl; auto. rewrite cv_fr, IH. reflexivity. Qed.
+Lemma cq_fr u l : cq (RFr u) l = 0.
+Proof. induction l as [|p l IH]; simpl; auto. rewrite cci_fr, IH. reflexivity. Qed.
+Lemma ctim_fr u l : ctim (RFr u) l = 0.
+Proof. induction l as [|p l IH]; simpl; auto. rewrite cci_fr, IH. reflexivity. Qed.
+Lemma cfrs_fr u l : cfrs (RFr u) l = 0.
+Proof. induction l as [|p l IH]; simpl; auto. rewrite cenv_fr, IH. reflexivity. Qed.
+Lemma cacts_fr u l : cacts (RFr u) l = 0.
+Proof.
+  induction l as [|[a y] l IH]; simpl; auto. rewrite IH. unfold cactor. simpl.
+  assert (cstate (RFr u) a (a_state y) = 0).
+  { destruct (a_state y); simpl; [apply cq_fr | rewrite cenv_fr, ind_neq by discriminate; reflexivity | reflexivity]. }
+  assert (cnotopt (RFr u) (a_notify y) = 0).
+  { destruct (a_notify y); simpl; [rewrite badif_fr, cret_fr; reflexivity | reflexivity]. }
+  lia.
+Qed.
+Lemma cmop_fr u m : cmop (RFr u) m = 0.
+Proof.
+  destruct m; simpl; rewrite ?badif_fr, ?cci_fr, ?cv_fr, ?cret_fr; try reflexivity.
+  all: try (destruct m as [[v|c]|]; simpl; rewrite ?badif_fr; reflexivity).
+  all: apply ind_neq; discriminate.
+Qed.
+Lemma cmops_fr u k : cmops (RFr u) k = 0.
+Proof. induction k as [|m k IH]; simpl; auto. rewrite cmop_fr, IH. reflexivity. Qed.
+Lemma cst_fr u s : cst (RFr u) s = cnu (RFr u) (nuid s).
+Proof. unfold cst. rewrite !cq_fr, ctim_fr, cacts_fr, cenv_fr, cfrs_fr. lia. Qed.
+Lemma conT_fr u t : conT (RFr u) t = 0.
+Proof. induction t as [|e t IH]; simpl; auto. rewrite IH. destruct e; simpl; try reflexivity; rewrite ind_neq by discriminate; reflexivity. Qed.
+Lemma creT_fr u t : creT (RFr u) t = creT (RClo u) t.
+Proof.
+  induction t as [|e t IH]; simpl; auto. rewrite IH. f_equal.
+  destruct e; simpl; try reflexivity; try (rewrite !ind_neq by discriminate; reflexivity).
+  rewrite (ind_neq (RFr u) (RClo uid)), (ind_neq (RClo u) (RFr uid)) by discriminate.
+  destruct (N.eq_dec u uid) as [->|NE]; [rewrite !ind_refl; reflexivity | rewrite !ind_neq by congruence; reflexivity].
+Qed.
+
+(* nothing is ever created or consumed for the pseudo resource of ill-kinded values *)
+Lemma conT_bad t : conT RBad t = 0.
+Proof. induction t as [|e t IH]; simpl; auto. rewrite IH. destruct e; simpl; try reflexivity; rewrite ?ind_neq by discriminate; reflexivity. Qed.
+Lemma creT_bad t : creT RBad t = 0.
+Proof. induction t as [|e t IH]; simpl; auto. rewrite IH. destruct e; simpl; try reflexivity; rewrite ?ind_neq by discriminate; reflexivity. Qed.
+Lemma conT_nn x t : 0 <= conT x t.
+Proof. induction t as [|e t IH]; simpl; [lia|]. assert (0 <= con1 x e) by (destruct e; simpl; try lia; apply ind_range). lia. Qed.
+Lemma creT_nn x t : 0 <= creT x t.
+Proof.
+  induction t as [|e t IH]; simpl; [lia|].
+  assert (0 <= cre1 x e).
+  { destruct e; simpl; try lia; try apply ind_range. pose proof (ind_range x (RClo uid)). pose proof (ind_range x (RFr uid)). lia. }
+  lia.
 Qed.
